@@ -113,7 +113,12 @@ func parseErrClass(err error) string {
 
 // delegated reports whether the meta section is in a third-party codec or compressed (outside the model),
 // using the real varint functions for the framing.
-func delegated(b []byte) bool {
+func delegated(b []byte) (d bool) {
+	defer func() {
+		if recover() != nil {
+			d = false // a panic in the framing functions is reported by the parse op itself
+		}
+	}()
 	v, off, err := varint.Unpack8(b)
 	if err != nil || v != 1 {
 		return false
